@@ -146,3 +146,106 @@ Proof.
   - vm_compute. discriminate.
   - vm_compute. split; reflexivity.
 Qed.
+
+(* ====================================================================================
+   `if (<formula>) expand { c1; c2; … }`  (strengthening round 3; Model/CondExpand.v is the port
+   of the is_expand branch of Lexer.parse_if_else, Proofs/CondExpand.v the proofs).
+
+   Every command of the batch is guarded by its OWN fresh evaluation of the formula.  The
+   commands are arbitrary: one line (kept after `run`, an `execute` merged at the junction) or
+   several lines (stored as `expand/k`, called under the guard); they may overwrite the
+   `__logic__N` flags — any command that evaluates a condition of its own or calls a function
+   that does will — and any user score.
+
+     expand_sem ft env test T batch st st'   source meaning: the commands in order, each run iff
+                                             `test` holds of the state it is reached in; T = the
+                                             side effect of evaluating the test
+     runs ft env lines st st'                MC.Sem: with enough fuel the lines take st to st'
+   ==================================================================================== *)
+From JMCV Require Import Model.PrivAlloc Model.CondExpand Proofs.CondExpand.
+From JMCV Require Proofs.IfElseBase.
+
+(* Partial for the same reason as C03_guard_iff_partial only (atom_lit_ok inside formula_ok). *)
+Theorem C03_expand_guard_iff_partial :
+  forall ft env nm wrapped f pcs cs,
+    parse_condition nm (source_tokens wrapped f) = Some (pcs, cs) ->
+    formula_ok nm f ->
+    (* evaluating the test changes `__logic__N` scores only *)
+    (forall st, (forall s, user_score nm s -> sc (test_effect ft env pcs st) s = sc st s) /\
+                stg (test_effect ft env pcs st) = stg st /\ tr (test_effect ft env pcs st) = tr st) /\
+    forall batch : list xitem,
+      (* no command lowers to nothing; the function table holds the `expand/k` functions the lowering created *)
+      (forall it, In it batch ->
+                  fst it <> [] /\
+                  (length (fst it) <> 1%nat -> ft (priv_fn nm EXPAND (snd it)) = Some (fst it))) ->
+      forall st st',
+        Proofs.IfElseBase.runs ft env (fst (expand_code nm pcs cs batch)) st st' <->
+        expand_sem ft env (fun s => eval s f) (test_effect ft env pcs) (map fst batch) st st'.
+Proof. exact expand_guard_iff. Qed.
+Print Assumptions C03_expand_guard_iff_partial.
+
+(* Batches of abstract one-line commands: the emitted lines always terminate, in exactly the state
+   the source meaning computes (expand_ext: fold over the batch, testing the formula before each command). *)
+Theorem C03_expand_batch_state_partial :
+  forall ft env nm wrapped f pcs cs ns st,
+    parse_condition nm (source_tokens wrapped f) = Some (pcs, cs) ->
+    formula_ok nm f ->
+    forall st',
+      Proofs.IfElseBase.runs ft env (fst (expand_code nm pcs cs (map (fun n => ([CExt n], O)) ns))) st st' <->
+      st' = expand_ext env (fun s => eval s f) (test_effect ft env pcs) ns st.
+Proof. exact expand_ext_runs. Qed.
+Print Assumptions C03_expand_batch_state_partial.
+
+(* Why the helper block must be repeated: emitted once for the whole batch (expand_code_hoisted),
+   `if ($a || $b) expand { c0; c1; }` with a = 1 and a c0 that leaves `__logic__0` = 0 behind (as a
+   nested `if ($c || $d)` with c, d false does) skips c1, although `$a || $b` still holds.  The
+   lowering of the model (= of the tree) runs both. *)
+Definition expand_witness_env (n : nat) (st : state) : state :=
+  match n with O => set_sc st (flag default_names 0) 0 | _ => st end.
+Definition expand_witness_formula : formula :=
+  Or [Leaf (ATruthy ("$a", "__variable__")%string); Leaf (ATruthy ("$b", "__variable__")%string)].
+Definition expand_witness_state : state :=
+  mkState (fun k => if score_eqb k ("$a", "__variable__")%string then Some 1 else None) (fun _ => None) [].
+
+Theorem C03_expand_hoisted_refuted :
+  let ft := fun _ : string => @None (list cmd) in
+  let batch := [([CExt 0], O); ([CExt 1], O)] in
+  formula_ok default_names expand_witness_formula /\
+  match parse_condition default_names (source_tokens true expand_witness_formula) with
+  | Some (pcs, cs) =>
+    tr (expand_ext expand_witness_env (fun s => eval s expand_witness_formula)
+                   (test_effect ft expand_witness_env pcs) [0%nat; 1%nat] expand_witness_state) = [EExt 1; EExt 0] /\
+    option_map tr (exec_list ft expand_witness_env 3 (fst (expand_code default_names pcs cs batch)) expand_witness_state)
+      = Some [EExt 1; EExt 0] /\
+    option_map tr (exec_list ft expand_witness_env 3 (fst (expand_code_hoisted default_names pcs cs batch)) expand_witness_state)
+      = Some [EExt 0]
+  | None => False
+  end.
+Proof.
+  cbn zeta. split.
+  - split; [reflexivity|]. cbn. repeat constructor; intros k E; discriminate E.
+  - vm_compute. repeat split; reflexivity.
+Qed.
+Print Assumptions C03_expand_hoisted_refuted.
+
+(* Non-vacuity of C03_expand_guard_iff_partial: a batch with a one-line command, an `execute` that is
+   merged and a two-line command stored as expand/0 satisfies the hypotheses; the emitted lines run. *)
+Example C03_expand_nonvacuous :
+  let nm := default_names in
+  let lines2 := [CSet ("$s", "__variable__")%string 1; CExt 2] in
+  let batch := [([CExt 0], O); ([CExecute [MIf true (Matches ("$c", "__variable__")%string (Exact 1))] (CExt 1)], O); (lines2, O)] in
+  let ft := fun fn => if String.eqb fn (priv_fn nm EXPAND 0) then Some lines2 else None in
+  (forall it, In it batch ->
+     fst it <> [] /\ (length (fst it) <> 1%nat -> ft (priv_fn nm EXPAND (snd it)) = Some (fst it))) /\
+  match parse_condition nm (source_tokens true expand_witness_formula) with
+  | Some (pcs, cs) =>
+    option_map tr (exec_list ft (fun _ st => st) 4 (fst (expand_code nm pcs cs batch)) expand_witness_state)
+      = Some [EExt 2; EExt 0] /\
+    length (fst (expand_code nm pcs cs batch)) = 12%nat /\ map fst (snd (expand_code nm pcs cs batch)) = [priv_fn nm EXPAND 0]
+  | None => False
+  end.
+Proof.
+  cbn zeta. split.
+  - intros it [<-|[<-|[<-|[]]]]; cbn [fst snd length]; (split; [discriminate|]); intros C; try (now elim C); reflexivity.
+  - vm_compute. repeat split; reflexivity.
+Qed.
